@@ -209,7 +209,11 @@ pub fn case(rng: &mut Rng, w: &Weights, tag: &str) -> String {
             } else {
                 let p = 1 + rng.below(3);
                 let tp = TreeParams { in_dim: m, out_dim: p, max_depth: 1 + rng.below(2), partial16: w.partial16, holes: false };
-                let g: AffTree<2> = rand_tree(rng, &tp);
+                let mut g: AffTree<2> = rand_tree(rng, &tp);
+                if rng.chance(1, 2) {
+                    // an operand that carries cached feasibility states from its own earlier elimination
+                    g.infeasible_elimination();
+                }
                 m = p;
                 let mut s = String::from("tree ");
                 enc::afftree(&mut s, &g);
@@ -241,6 +245,9 @@ pub fn case(rng: &mut Rng, w: &Weights, tag: &str) -> String {
             let which = rng.below(nops);
             let tp = TreeParams { in_dim: n, out_dim: m, max_depth: 1 + rng.below(2), partial16: w.partial16, holes: false };
             let mut g: AffTree<2> = rand_tree(rng, &tp);
+            if rng.chance(1, 2) {
+                g.infeasible_elimination();
+            }
             if which == 3 {
                 // divisor without zero coefficients
                 for term in g.tree.terminals_mut() {
